@@ -27,7 +27,7 @@ MUT = {"and": ["nand", "or", "nor", "xor", "xnor"], "nand": ["and", "or", "xnor"
 
 def bounds(tier):
     q = tier == "quick"
-    return {"c0": [[2, 2], [1, 2]] if q else [[2, 2], [1, 2], [3, 2], [2, 3]], "c1_small": [2, 1],
+    return {"c0": [[2, 2, None], [1, 2, None]] if q else [[2, 2, None], [1, 2, None], [3, 2, None], [2, 3, ("and", "xor", "not")]], "c1_small": [2, 1],
             "feedthrough": [2, 1] if q else [2, 2]}
 
 
@@ -172,8 +172,8 @@ def check_miter(acc, d0, d1, sp_arg, ep_arg, label, solve_too=True):
 
 def c0_space(tier):
     b = bounds(tier)
-    for I, G in b["c0"]:
-        for gates in space.circuits(I, G, min_gates=1):
+    for I, G, types in b["c0"]:
+        for gates in space.circuits(I, G, types=types or space.ALL_GATES, max_arity=3 if types is None else 2, min_gates=1):
             yield space.to_desc(I, gates, outputs="gates", name="c0")
     I, G = b["feedthrough"]
     for gates in space.circuits(I, G, max_arity=2, min_gates=1):
